@@ -62,7 +62,7 @@ fn map_err(e: &anyhow::Error) -> Ret {
 
 /// model twin of `build_real`
 fn build_model(spec: &TrackSpec, cfg: &Cfg, via_builder_only: bool) -> (TrackSnap, u32) {
-    let mut t = new_track(spec.id, cfg);
+    let mut t = new_track(spec.created_as.unwrap_or(spec.id), cfg);
     let mut notes = 1;
     let mut f = FaultCtx::suspended();
     for (c, tag, q) in &spec.obs {
@@ -84,6 +84,8 @@ fn build_model(spec: &TrackSpec, cfg: &Cfg, via_builder_only: bool) -> (TrackSna
             let _ = merge(&mut t, &other, &cls, true, cfg, &mut f);
         }
     }
+    // renamed afterwards: the history keeps the creation id
+    t.id = spec.id;
     (t, notes)
 }
 
@@ -93,7 +95,7 @@ fn build_model(spec: &TrackSpec, cfg: &Cfg, via_builder_only: bool) -> (TrackSna
 fn build_real(store: &Store, env: &Env, notif: &Notif, spec: &TrackSpec, via_builder_only: bool) -> (STrack, BTreeMap<u64, u32>) {
     let before = notif.log.lock().unwrap().clone();
     env.suspended.store(true, SeqCst);
-    let mut b = store.new_track(spec.id);
+    let mut b = store.new_track(spec.created_as.unwrap_or(spec.id));
     for (c, tag, q) in &spec.obs {
         b = b.observation(
             ObservationBuilder::new(*c)
@@ -116,6 +118,9 @@ fn build_real(store: &Store, env: &Env, notif: &Notif, spec: &TrackSpec, via_bui
             cls.sort();
             let _ = t.merge(&other, &cls, true);
         }
+    }
+    if spec.created_as.is_some() {
+        t.set_track_id(spec.id);
     }
     env.suspended.store(false, SeqCst);
     let after = notif.log.lock().unwrap().clone();
